@@ -56,7 +56,10 @@ class Parser(Emitter):
             fn = formulas.get_for(name)
         if fn is None:
             raise formulaserror.NAME
-        result['value'] = fn(*args)
+        try:
+            result['value'] = fn(*args)
+        except formulaserror.XLError as e:
+            result['value'] = e  # an error raised by a function is that function's value
 
         def valsetter(new_value):
             if new_value is not None:
